@@ -85,6 +85,25 @@ func newRequest(id int, c *conn, p *packet) (*Request, error) {
 	return r, nil
 }
 
+// responseApplicationCode returns the application code (protocolOp tag) of the
+// final response which belongs to the request's operation.
+func (r *Request) responseApplicationCode() int {
+	switch r.routeOp {
+	case bindRouteOperation:
+		return ApplicationBindResponse
+	case searchRouteOperation:
+		return ApplicationSearchResultDone
+	case modifyRouteOperation:
+		return ApplicationModifyResponse
+	case addRouteOperation:
+		return ApplicationAddResponse
+	case deleteRouteOperation:
+		return ApplicationDelResponse
+	default:
+		return ApplicationExtendedResponse
+	}
+}
+
 // ConnectionID returns the request's connection ID which enables you to know
 // "who" (i.e. which connection) made a request. Using the connection ID you
 // can do things like ensure a connection performing a search operation has
